@@ -19,6 +19,14 @@ Definition item_of (o : rp_obs) : item :=
   end.
 Definition frame_item (data : bytes) (sched : list nat) : item := item_of (fst (run_read data sched)).
 
+(* the items Watch reads off a stretch of the inbound octet stream handed out in
+   the given pieces (pieces need not respect frame boundaries): successive
+   ReadPDU calls of the codec model; octets that end inside a frame are a
+   failed read ([IFatal]: nil PDU and an error) *)
+Definition stream_items (data : bytes) (sched : list nat) : list item :=
+  flat_map (fun rc => match fst rc with OEOF => [] | o => [item_of o] end) (run_many data sched).
+Definition peer_stream (data : bytes) (sched : list nat) : list event := map PeerFrame (stream_items data sched).
+
 (* Submit stamps the sequence number into the packet before Send marshals it *)
 Definition stamp (q : Z) (vs : list fval) : list fval :=
   match vs with
@@ -80,3 +88,5 @@ Definition lrun_ok (progs : list (list act)) (sched : list nat) : bool :=
    Send returns the error and nothing is marshalled onto the transport. *)
 Definition send_prep (deadline_ok : bool) (m : outcome bytes) : outcome bytes :=
   if deadline_ok then m else Err EOther.
+(* The same term stands for a transport whose Write call fails without taking
+   an octet ([CallSpec.WriteFails]): Send returns the error, nothing is on the wire. *)
